@@ -99,7 +99,15 @@ func bulkArg(s *sync2.Set[int], o setOp) sets.Set[int] {
 	case o.Self:
 		return s
 	case o.ArgSync2:
-		return sync2.NewSetFromSlice(o.Multi)
+		// a concurrent set with a past: two more values were added, listed and removed
+		// again (they sit in its read map as deleted entries and are not members)
+		a := sync2.NewSetFromSlice(o.Multi)
+		a.Add(-901)
+		a.Add(-902)
+		_ = a.Len()
+		a.Remove(-901)
+		a.Remove(-902)
+		return a
 	}
 	return tmaps.NewSetFromSlice(o.Multi)
 }
@@ -354,7 +362,12 @@ func c05tierb(c *core.Ctx) {
 	for i := range univ {
 		univ[i] = i
 	}
-	init, pre := c05prefix(r, &s, univ)
+	// a quarter of the cases start on a brand-new zero-value set, with no sequential prefix:
+	// the very first calls ever made on the value are the concurrent ones
+	init, pre := map[int]bool{}, []string{"(brand-new set, no prefix)"}
+	if !r.Chance(1, 4) {
+		init, pre = c05prefix(r, &s, univ)
+	}
 	nw := r.Range(2, 4)
 	allowMulti := r.Chance(1, 5)
 	sc := sched.New(r.Fork(), r.Intn(3))
@@ -420,7 +433,12 @@ func c05free(c *core.Ctx, record bool) {
 	for i := range univ {
 		univ[i] = i
 	}
-	init, pre := c05prefix(r, &s, univ)
+	// a quarter of the cases start on a brand-new zero-value set, with no sequential prefix:
+	// the very first calls ever made on the value are the concurrent ones
+	init, pre := map[int]bool{}, []string{"(brand-new set, no prefix)"}
+	if !r.Chance(1, 4) {
+		init, pre = c05prefix(r, &s, univ)
+	}
 	ng, nops := r.Range(2, 8), r.Range(10, 120)
 	if !record {
 		ng, nops = r.Range(2, 16), r.Range(10, 150)
